@@ -25,6 +25,8 @@ struct Job {
     heu: Option<&'static str>,
     labels: Vec<String>,
     asts: Vec<Ast>,
+    blocks: Vec<Vec<usize>>,  // claimed decomposition of a composed framework (declaration positions); empty otherwise
+    observers: Vec<usize>,
 }
 
 fn tokenise(line: &str) -> Value {
@@ -112,7 +114,9 @@ fn run_job(cli: &str, work: &str, j: &Job) -> Value {
            "labels": j.labels.iter().map(|l| cps(l)).collect::<Vec<_>>(), "asts": j.asts.iter().map(|a| a.to_json_idx()).collect::<Vec<_>>(),
            "exit": exit, "lines": raw.iter().map(|l| tokenise(l)).collect::<Vec<_>>(), "raw": raw, "text": j.text, "cp": cps(&j.text),
            "opchars": opchars, "stderr_tail": stderr.chars().rev().take(160).collect::<String>().chars().rev().collect::<String>(),
-           "argv": args[1..].to_vec(), "counts": counts})
+           "argv": args[1..].to_vec(), "counts": counts,
+           "blocks": j.blocks.iter().map(|b| b.iter().map(|x| x + 1).collect::<Vec<_>>()).collect::<Vec<_>>(),
+           "observers": j.observers.iter().map(|x| x + 1).collect::<Vec<_>>()})
 }
 
 fn sha(path: &str) -> String {
@@ -312,21 +316,21 @@ pub fn main(args: &[String]) {
             let lib = libs[rng.gen_range(0..3)];
             let sort = sorts[rng.gen_range(0..3)];
             let heu = if flags.contains(&"stmng") || flags.contains(&"twoval") { if rng.gen_bool(0.7) { Some(HEUS[rng.gen_range(0..4)]) } else { None } } else { None };
-            jobs.push(Job { id: format!("k{}_{}", k, jobs.len()), kind: "cli", text: text.clone(), lib, sort, flags, heu, labels: dl.clone(), asts: da.clone() });
+            jobs.push(Job { id: format!("k{}_{}", k, jobs.len()), kind: "cli", text: text.clone(), lib, sort, flags, heu, labels: dl.clone(), asts: da.clone(), blocks: vec![], observers: vec![] });
         }
         // same flags on all three modes (the modes must print the same sets)
         for lib in libs {
-            jobs.push(Job { id: format!("k{}_{}", k, jobs.len()), kind: "cli", text: text.clone(), lib, sort: "none", flags: vec!["grd", "com", "stm"], heu: None, labels: dl.clone(), asts: da.clone() });
+            jobs.push(Job { id: format!("k{}_{}", k, jobs.len()), kind: "cli", text: text.clone(), lib, sort: "none", flags: vec!["grd", "com", "stm"], heu: None, labels: dl.clone(), asts: da.clone(), blocks: vec![], observers: vec![] });
         }
         // C13 at the CLI: --counter nai in the two arms that support it (declaration order, no semantics flag)
         for lib in ["naive", "hybrid"] {
-            jobs.push(Job { id: format!("k{}_{}", k, jobs.len()), kind: "cli_counter", text: text.clone(), lib, sort: "none", flags: vec![], heu: None, labels: dl.clone(), asts: da.clone() });
+            jobs.push(Job { id: format!("k{}_{}", k, jobs.len()), kind: "cli_counter", text: text.clone(), lib, sort: "none", flags: vec![], heu: None, labels: dl.clone(), asts: da.clone(), blocks: vec![], observers: vec![] });
         }
         // malformed variants of the same file
         for m in 0..2 {
             let bad = if m == 0 { mutate(&mut rng, &text) } else { format!("{}ac({},nosuch).", text, render_label(&labels[0])) };
             let lib = libs[rng.gen_range(0..3)];
-            jobs.push(Job { id: format!("k{}_{}", k, jobs.len()), kind: "cli_bad", text: bad, lib, sort: "none", flags: vec!["grd", "com", "stm"], heu: None, labels: vec![], asts: vec![] });
+            jobs.push(Job { id: format!("k{}_{}", k, jobs.len()), kind: "cli_bad", text: bad, lib, sort: "none", flags: vec!["grd", "com", "stm"], heu: None, labels: vec![], asts: vec![], blocks: vec![], observers: vec![] });
         }
     }
     // many answers through the channel-fed section: ten self-supporting statements have 1024 two-valued models
@@ -335,7 +339,51 @@ pub fn main(args: &[String]) {
         let labels: Vec<String> = (0..n).map(|i| format!("w{}", i)).collect();
         let asts: Vec<Ast> = (0..n).map(Ast::Atom).collect();
         let text = render(&labels, &asts, &canonical_facts(n), &plain_layout());
-        jobs.push(Job { id: format!("big_{}", jobs.len()), kind: "cli", text, lib: "hybrid", sort: "none", flags: vec!["twoval"], heu: None, labels, asts });
+        jobs.push(Job { id: format!("big_{}", jobs.len()), kind: "cli", text, lib: "hybrid", sort: "none", flags: vec!["twoval"], heu: None, labels, asts, blocks: vec![], observers: vec![] });
+    }
+    // composed frameworks of 9-14 statements (with --com: 9-10, the complete enumeration visits 3^n candidates in a debug build)
+    if tier != "feat" {
+        let nbig = if tier == "thorough" { 40 } else { 8 };
+        let mut made = 0;
+        let mut tries = 0;
+        while made < nbig && tries < 400 {
+            tries += 1;
+            let with_com = made % 2 == 0;
+            let (case, blocks, observers) = composed_adf(&mut rng, format!("cb{}", tries), 9, if with_com { 10 } else { 14 });
+            let n = case.asts.len();
+            // pre-selection by answer size only (the launches print every model): at most 300 lines per section
+            let parser = adf_bdd::parser::AdfParser::default();
+            let text0 = case.text();
+            let parsed_ok = parser.parse()(&text0).is_ok();
+            if !parsed_ok { continue; }
+            let mut adf = adf_bdd::adf::Adf::from_parser(&parser);
+            let (s, r) = crossbeam_channel::unbounded();
+            adf.two_val_nogood_channel(adf_bdd::adf::heuristics::Heuristic::Simple, s);
+            if r.try_iter().count() > 300 { continue; }
+            if with_com && adf.complete().count() > 300 { continue; }
+            let labels: Vec<String> = (0..n).map(|i| format!("{}{}", ["x", "St", "q_", "and"][made % 4], i)).collect();
+            let facts = if rng.gen_bool(0.5) { canonical_facts(n) } else { shuffled_facts(&mut rng, n) };
+            let decl: Vec<usize> = facts.iter().filter_map(|f| if let Fact::S(i) = f { Some(*i) } else { None }).collect();
+            let text = render(&labels, &case.asts, &facts, &plain_layout());
+            let inv: Vec<usize> = { let mut v = vec![0; n]; for (p, b) in decl.iter().enumerate() { v[*b] = p; } v };
+            let dl: Vec<String> = decl.iter().map(|b| labels[*b].clone()).collect();
+            let da: Vec<Ast> = decl.iter().map(|b| case.asts[*b].map_atoms(&|i| inv[i])).collect();
+            let db: Vec<Vec<usize>> = blocks.iter().map(|b| b.iter().map(|x| inv[*x]).collect()).collect();
+            let dob: Vec<usize> = observers.iter().map(|x| inv[*x]).collect();
+            let sets: Vec<Vec<&'static str>> = if with_com {
+                vec![vec!["grd", "com", "stm"], vec!["com"], vec!["grd", "com", "stmng"]]
+            } else {
+                vec![vec!["grd", "stm"], vec!["stmca", "stmcb"], vec!["stmng", "twoval"], vec!["grd", "stmpre", "stmrew"], vec!["stmrew2", "twoval"]]
+            };
+            for (q, flags) in sets.into_iter().enumerate() {
+                let lib = libs[(made + q) % 3];
+                let sort = sorts[(made / 2 + q) % 3];
+                let heu = if flags.contains(&"stmng") || flags.contains(&"twoval") { Some(HEUS[(made + q) % 4]) } else { None };
+                jobs.push(Job { id: format!("cb{}_{}", made, jobs.len()), kind: "cli_big", text: text.clone(), lib, sort, flags, heu, labels: dl.clone(), asts: da.clone(),
+                                blocks: db.clone(), observers: dob.clone() });
+            }
+            made += 1;
+        }
     }
     let jobs = Arc::new(jobs);
     let next = Arc::new(AtomicUsize::new(0));
